@@ -1,7 +1,7 @@
 (* Entry points of the executable model, by name.  Used both by the extracted
    OCaml driver and by vm_compute in generated cases files. *)
 From Coq Require Import ZArith QArith List String Bool.
-From SKC Require Import Model.Val Base.QBool Base.QList Base.QRank Model.Dominance Model.Agg Model.Electre Model.Result Model.Select Model.Transform Model.Weights Model.Filters Model.Untie Model.Diff Model.Pipeline Model.Impute.
+From SKC Require Import Model.Val Base.QBool Base.QList Base.QRank Model.Dominance Model.Agg Model.Electre Model.Result Model.Select Model.Transform Model.Weights Model.Filters Model.Untie Model.Diff Model.Pipeline Model.Impute Model.RRT.
 Import ListNotations.
 Local Open Scope string_scope.
 
@@ -261,6 +261,16 @@ Definition run_simple_impute (a : Z * Q * list (list (option Q))) : val :=
            else if (code =? 2)%Z then SMode else SConst v in
   VL [eTable eQ (simple_impute s columns); eL (fun c => eQ (fill_value s c)) columns].
 
+(* ---- C19: rank reversal test ---------------------------------------------------------------------- *)
+Definition run_rrt (a : list bool * list (list Q) * Z * list Q * list (nat * list Q)) : val :=
+  let '(objs, rows, code, given, noises) := a in
+  let s := if (code =? 0)%Z then LMedian else if (code =? 1)%Z then LMean else LGiven given in
+  let bounds := max_abs_noises s (List.length objs) rows in
+  VL [eTable eQ bounds;
+      eL (fun kn => eB (noise_ok objs (nth (fst kn) bounds []) (snd kn))) noises].
+Definition run_schedule (a : list Z * nat) : val :=
+  eL (fun p => VL [eN (fst p); eZ (snd p)]) (schedule (fst a) (snd a)).
+
 Definition dispatch (fn : string) (arg : val) : val :=
   if fn =? "dominance" then with_arg (dP2 (dL dB) dMatrix) run_dominance arg
   else if fn =? "rank" then with_arg (dP2 dB (dL dQ)) run_rank arg
@@ -283,6 +293,8 @@ Definition dispatch (fn : string) (arg : val) : val :=
   else if fn =? "unique_names" then with_arg (dL (dL dZ)) run_unique_names arg
   else if fn =? "copy_with" then with_arg (dP2 (dL (dP2 dZ dZ)) (dL (dP2 dZ dZ))) run_copy_with arg
   else if fn =? "simple_impute" then with_arg (dP3 dZ dQ (dL (dL (dO dQ)))) run_simple_impute arg
+  else if fn =? "rrt" then with_arg (dP5 (dL dB) dMatrix dZ (dL dQ) (dL (dP2 dN (dL dQ)))) run_rrt arg
+  else if fn =? "schedule" then with_arg (dP2 (dL dZ) dN) run_schedule arg
   else if fn =? "wsm" then with_arg dDM run_wsm arg
   else if fn =? "ratio" then with_arg dDM run_ratio arg
   else if fn =? "refpoint" then with_arg dDM run_refpoint arg
